@@ -76,12 +76,13 @@ def run_models(pid, tier, scratch):
 
     def one(nl):
         n, lv = nl
-        r = models.run_model(n, scratch, live=lv, workers=vlib.NCPU, timeout=1500)
+        r = models.run_model(n, scratch, live=lv, workers=vlib.NCPU, timeout=1500 if tier == 'quick' else 3600)
         return n, lv, r
     with ThreadPoolExecutor(1) as ex:
         for n, lv, r in ex.map(one, names):
             out.append({'config': n, 'liveness': lv, 'ok': bool(r.get('ok')), 'states': r.get('distinct', 0), 'transitions': r.get('generated', 0),
-                        'depth': r.get('depth', 0), 'seconds': round(r['wall'], 1), 'violated': r.get('violated')})
+                        'depth': r.get('depth', 0), 'seconds': round(r['wall'], 1), 'violated': r.get('violated'),
+                        'timeout': r.get('rc') == -9 and not r.get('violated')})
             if not r.get('ok'):
                 import tlcsum
                 log('model %s%s: %s\n%s' % (n, ' (liveness)' if lv else '', r.get('violated') or 'TLC error', (tlcsum.summarize(r['out'], 60) or r['out'][-1500:])))
@@ -725,7 +726,12 @@ def check_property(pid, tier, seed):
         cov['states'] = sum(m['states'] for m in mres + dsm) or max(1, cov['obs_states'])
         cov['transitions'] = sum(m['transitions'] for m in mres + dsm) or max(1, cov['obs_states'])
         cov['exhaustive'] = False
-        bad_models = [m for m in mres + dsm if not m['ok']]
+        # a configuration TLC could not finish within its time limit (a loaded machine) explored part of its state space without a failure:
+        # that is reported in the evidence and on stdout, and it is neither a verdict nor a failure of the specification
+        for m in mres + dsm:
+            if not m['ok'] and m.get('timeout'):
+                print('NOTE model-incomplete property=%s config=%s (TLC ran out of time after %s s; no failure in the part explored)' % (pid, m['config'], m.get('seconds')), flush=True)
+        bad_models = [m for m in mres + dsm if not m['ok'] and not m.get('timeout')]
         for m in bad_models:
             print('INCONCLUSIVE model-violation property=%s config=%s formula=%s (the specification, not the code, failed: no verdict)' % (pid, m['config'], m['violated']), flush=True)
         wall = time.time() - t0
